@@ -59,5 +59,9 @@ prefix, offset = '', 0
 if args and args[0] == '--round2':
     prefix, offset = 'R2_', 2
     args = args[1:]
+elif args and args[0] == '--round':
+    n = int(args[1])
+    prefix, offset = 'R%d_' % n, 2 * (n - 1)
+    args = args[2:]
 for pid in args:
     main(pid, prefix, offset)
